@@ -33,8 +33,13 @@ KEYS = [(0, 0), (0, 1), (1, 0), (2, 0)]  # fn#1/a0, fn#1/a1, fn#10/a0, fn1#0/a0 
 
 
 def cases(tier, seed):
+    if tier in ("quick", "thorough"):
+        yield {"kind": "repo_tests"}
     for b in BUDGETS:
         yield {"kind": "bfs", "budget": b, "depth": 60, "nkeys": 3}
+    # the same enumeration with weak-referenceable values (numpy arrays): the cache keeps a second,
+    # weak table for those, so look-ups take other paths
+    yield {"kind": "bfs", "budget": "4KiB", "depth": 60, "nkeys": 3, "values": "ndarray"}
     if tier == "thorough":
         yield {"kind": "bfs", "budget": "4KiB", "depth": 60, "nkeys": 4}
     n = 150 if tier == "quick" else 6000
@@ -138,14 +143,23 @@ def bfs_ops(nkeys=3):
     return ops
 
 
+def array_of_size(n):
+    import numpy as np
+
+    a = np.zeros(max(n - sys.getsizeof(np.zeros(0, dtype="int8")), 0), dtype="int8")
+    assert sys.getsizeof(a) == n, (sys.getsizeof(a), n)
+    return a
+
+
 class CacheRunner:
-    def __init__(self, budget_name):
+    def __init__(self, budget_name, values="str"):
         from twosigma.memento.storage_base import MemoryCache
 
         self.refs = storeops.Refs("c")
         self.cache = MemoryCache(BUDGETS[budget_name])
         self.sizes = size_classes(self.cache.memory_cache_bytes)
-        self.values = {s: str_of_size(n) for s, n in self.sizes.items()}
+        make = str_of_size if values == "str" else array_of_size
+        self.values = {s: make(n) for s, n in self.sizes.items()}
         self.mon = LruMonitor()
         self.last_put = {}
         self.ck = [self.cache._cache_key_for_fn(self.refs.refs[f], self.refs.ah[f][a]) for f, a in KEYS]
@@ -182,7 +196,7 @@ class CacheRunner:
             try:
                 got = c.read_result(self.refs.memento(f, a, None))
                 exp = self.last_put.get(key, KeyError)
-                if exp is KeyError or got != exp:
+                if exp is KeyError or got is not exp and not domain.eq(got, exp):
                     bad.append(("cache serves a value other than the last one put",
                                 "read %s got %s expected %s" % (key, domain.describe(got, 30),
                                                                "miss" if exp is KeyError else domain.describe(exp, 30))))
@@ -268,7 +282,7 @@ def run_bfs(case, out):
     ops = bfs_ops(case.get("nkeys", 3))
     seen = {}
     frontier = [()]
-    r = CacheRunner(case["budget"])
+    r = CacheRunner(case["budget"], case.get("values", "str"))
     seen[r.abstract()] = ()
     snaps = {(): r.snapshot()}
     depth, transitions, exhausted = 0, 0, False
@@ -307,7 +321,8 @@ def run_bfs(case, out):
     exhausted = not frontier
     out["obs"]["bfs_states"] += len(seen)
     out["obs"]["bfs_transitions"] += transitions
-    tag = case["budget"] + ("" if case.get("nkeys", 3) == 3 else "/%dkeys" % case["nkeys"])
+    tag = case["budget"] + ("" if case.get("nkeys", 3) == 3 else "/%dkeys" % case["nkeys"]) + (
+        "" if case.get("values", "str") == "str" else "/" + case["values"])
     out["obs"]["bfs_closed_" + tag] = 1 if exhausted else 0
     out["obs"]["bfs_depth_" + tag] = depth
     out["nontrivial"] += ["%s:%s" % (case["budget"], s) for s in interesting]
@@ -383,6 +398,10 @@ def run_hist(case, out):
 
 
 def run_case(case):
+    if case.get("kind") == "repo_tests":
+        from vf import repotests
+
+        return repotests.as_case_result(repotests.run_suite_with_monitors(), "C06", "cache_invariant_evaluations")
     out = {"viol": [], "nontrivial": [], "obs": collections.Counter()}
     (run_bfs if case["kind"] == "bfs" else run_hist)(case, out)
     out["obs"] = dict(out["obs"])
@@ -396,6 +415,7 @@ def conclude(agg):
                       core.need(agg, "evictions_observed", 50),
                       core.need(agg, "oversize_bypasses_observed", 10),
                       core.need(agg, "resident_reads_watched", 20),
-                      core.need(agg, "forget_sequences_checked", 20)), {"exhaustive": bool(closed),
+                      core.need(agg, "forget_sequences_checked", 20),
+                      core.need(agg, "repo_suite_cache_invariant_evaluations", 100)), {"exhaustive": bool(closed),
                                                                            "states": agg.obs.get("bfs_states", 0),
                                                                            "transitions": agg.obs.get("bfs_transitions", 0)}
